@@ -14,9 +14,14 @@
  * operation: {"op": name, "only": [ranks]?, ...arguments}.  Any argument value of the form {"@": [v0, v1, ...]} is
  * replaced by v<world rank> before the handler runs (per-rank arguments).  "only" restricts the op to some world ranks.
  *
- * output: first line {"k":"hello", constants...}; then one line per executed operation
+ *         "hello": true                          optional: print first a line {"k":"hello","const":{..},"err":{..}} (MPI constants)
+ *         "world": "uninitialized"               optional: leave the global MPI_COMM_WORLD as SMPI_app_instance_start() does
+ *
+ * output: one line per executed operation
  *     {"r": world rank, "i": index in prog, "op": name, "rc": MPI return code, ...results}
  *   "exc": text when the call threw a C++ exception; last line of each rank {"r":..,"k":"done"}; finally {"k":"end","t":clock}.
+ *   A fatal signal (SIGFPE, SIGSEGV, abort from xbt_assert...) prints {"k":"crash","sig":n,"r":rank,"i":index,"op":name}
+ *   after everything that was printed before, then the process dies of that signal.
  * Exit status 64 = malformed case (a generator bug, never a verdict).
  *
  * See /verif/notes/MPI_INFRA.md.
@@ -81,11 +86,64 @@ static json resolve(const json& v, int rank)
   return v;
 }
 
+/* ---- output: own buffer, written with write(2); flushed by the fatal-signal handler so that the lines printed before a
+ * crash are never lost, followed by a {"k":"crash"} line naming the operation that was running ---- */
+static std::string outbuf;
+static volatile int cur_rank = -1, cur_idx = -1;
+static char cur_op[64]       = "";
+
+static void flush_out()
+{
+  size_t done = 0;
+  while (done < outbuf.size()) {
+    ssize_t n = write(1, outbuf.data() + done, outbuf.size() - done);
+    if (n <= 0)
+      break;
+    done += static_cast<size_t>(n);
+  }
+  outbuf.clear();
+}
+
 static void emit(const json& o)
 {
-  std::string s = o.dump();
-  s.push_back('\n');
-  fwrite(s.data(), 1, s.size(), stdout);
+  outbuf += o.dump();
+  outbuf.push_back('\n');
+  if (outbuf.size() > (1u << 16))
+    flush_out();
+}
+
+static void on_fatal_signal(int sig)
+{
+  flush_out();
+  char line[200];
+  int n = snprintf(line, sizeof line, "{\"k\":\"crash\",\"sig\":%d,\"r\":%d,\"i\":%d,\"op\":\"%s\"}\n", sig, cur_rank, cur_idx, cur_op);
+  if (n > 0 && write(1, line, static_cast<size_t>(n)) < 0) { /* nothing to do */
+  }
+  signal(sig, SIG_DFL);
+  raise(sig);
+}
+
+void flush_all()
+{
+  flush_out();
+}
+
+void emit_line(const json& o)
+{
+  emit(o);
+}
+
+void install_crash_reporting()
+{
+  outbuf.reserve(1u << 17);
+  atexit(flush_out);
+  for (int sig : {SIGFPE, SIGABRT, SIGBUS, SIGILL, SIGSEGV}) {
+    struct sigaction sa;
+    memset(&sa, 0, sizeof sa);
+    sa.sa_handler = on_fatal_signal;
+    sa.sa_flags   = SA_ONSTACK | SA_NODEFER;
+    sigaction(sig, &sa, nullptr);
+  }
 }
 
 void rank_main(const json& kase)
@@ -117,6 +175,9 @@ void rank_main(const json& kase)
       json a           = resolve(raw, R.rank);
       std::string name = a.at("op").get<std::string>();
       o["op"]          = name;
+      cur_rank         = R.rank;
+      cur_idx          = idx;
+      snprintf(cur_op, sizeof cur_op, "%s", name.c_str());
       auto it          = registry().find(name);
       if (it == registry().end())
         throw BadCase("unknown operation '" + name + "'");
@@ -124,12 +185,12 @@ void rank_main(const json& kase)
     } catch (simgrid::ForcefulKillException const&) {
       throw;
     } catch (BadCase const& e) {
-      fflush(stdout);
+      flush_out();
       fprintf(stderr, "mpi_interp: bad case at op #%d: %s\n", idx, e.what());
       fflush(stderr);
       _exit(64);
     } catch (json::exception const& e) {
-      fflush(stdout);
+      flush_out();
       fprintf(stderr, "mpi_interp: bad case at op #%d: %s\n", idx, e.what());
       fflush(stderr);
       _exit(64);
@@ -139,6 +200,8 @@ void rank_main(const json& kase)
     emit(o);
   }
   emit(json{{"r", R.rank}, {"k", "done"}});
+  cur_idx = -2; // in MPI_Finalize
+  snprintf(cur_op, sizeof cur_op, "finalize");
   MPI_Finalize();
 }
 
@@ -160,8 +223,7 @@ static void hello()
   FOREACH_ERROR(ERR)
 #undef ERR
   h["err"] = e;
-  std::string s = h.dump();
-  puts(s.c_str());
+  mpii::emit_line(h);
 }
 
 static int run_case(const std::string& text)
@@ -178,7 +240,8 @@ static int run_case(const std::string& text)
     if (np < 1 || np > 4096)
       throw mpii::BadCase("np out of range");
     std::vector<std::string> args = {"mpi_interp", "--cfg=smpi/errors-are-fatal:no", "--cfg=smpi/simulate-computation:no",
-                                     "--cfg=smpi/privatization:no"};
+                                     "--cfg=smpi/privatization:no", "--log=xbt_cfg.thres:warning",
+                                     "--log=smpi_config.thres:warning"};
     if (kase.contains("cfg"))
       for (auto const& c : kase.at("cfg"))
         args.push_back("--cfg=" + c.get<std::string>());
@@ -227,21 +290,21 @@ static int run_case(const std::string& text)
     e.set_default_comm_data_copy_callback(smpi_comm_copy_buffer_callback);
 
     SMPI_init();
-    hello();
-    fflush(stdout);
+    mpii::install_crash_reporting(); // after the engine: SimGrid installs its own SIGSEGV handler (stack overflow message)
+    if (kase.value("hello", false))
+      hello();
     const json* kp = &kase;
     SMPI_app_instance_start("app", [kp]() { mpii::rank_main(*kp); }, hosts);
     e.run();
-    fflush(stdout);
-    printf("{\"k\":\"end\",\"t\":%.17g}\n", e.get_clock());
-    fflush(stdout);
+    mpii::emit_line(json{{"k", "end"}, {"t", e.get_clock()}});
+    mpii::flush_all();
     SMPI_finalize();
   } catch (mpii::BadCase const& e) {
-    fflush(stdout);
+    mpii::flush_all();
     fprintf(stderr, "mpi_interp: bad case: %s\n", e.what());
     return 64;
   } catch (json::exception const& e) {
-    fflush(stdout);
+    mpii::flush_all();
     fprintf(stderr, "mpi_interp: bad case: %s\n", e.what());
     return 64;
   }
